@@ -311,6 +311,29 @@ def ws_server():
                 errorEnds=(n_sends > 0 and ends + ignored == n_sends and ignored == 0), cancelSafe=whole)
 
 
+def ws_proxy():
+    """`proxy_connection_with_limits`: the relay loop owns the sink half; one whole Binary message per
+    upstream response, send error propagated with `?`."""
+    src = src_of("src/websocket_server.rs")
+    b = norm(fn_body(src, "proxy_connection_with_limits"))
+    split = re.search(r"let \(mut (\w+), mut (\w+)\) = ws_stream\s*\.\s*split\s*\(\s*\)\s*;", b)
+    if not split:
+        raise ExtractError("ws proxy: split() not found")
+    w = split.group(1)
+    single = re.search(r"\bspawn\s*\([^;]*\b" + w + r"\b|\b" + w + r"\s*\.\s*clone\s*\(", b) is None
+    fo = norm(fn_body(src, "frame_outbound"))
+    rets = re.findall(r"Some\s*\(\s*(\w+)\s*\.\s*(\w+)\s*\(\s*\)\s*\)", fo)
+    built = bool(rets) and all(meth in ("into_wire_bytes", "to_vec") for _, meth in rets)
+    n_frames = len(re.findall(r"if let Some\s*\(\s*bytes\s*\)\s*=\s*frame_outbound\s*\(", b))
+    sends = [m for m in re.finditer(w + r"\s*\.\s*send\s*\(\s*WsMessage\s*::\s*Binary\s*\(\s*(\w+)\s*\)\s*\)", b)]
+    whole = built and n_frames > 0 and len(sends) == n_frames and all(m.group(1) == "bytes" for m in sends) and not call_spans(b, r"\.\s*feed")
+    uses = [result_use(b, m.start(), m.end()) for m in sends]
+    if any(u in ("other", "bound") for u in uses):
+        raise ExtractError("ws proxy: unrecognised use of a send result")
+    return dict(singleWriter=single, lockRegions=0, writesOutsideLock=0, wholeWrites=whole, ignoredResults=uses.count("ignored"),
+                errorEnds=bool(uses) and all(u == "propagated" for u in uses), cancelSafe=whole)
+
+
 def extract():
     hw = framing_helpers_whole()
     return {
@@ -320,10 +343,11 @@ def extract():
         "blockingServer": blocking_server(hw),
         "asyncServer": async_server(),
         "wsServer": ws_server(),
+        "wsProxy": ws_proxy(),
     }
 
 
-ORDER = ["blockingClient", "asyncClient", "wsClient", "blockingServer", "asyncServer", "wsServer"]
+ORDER = ["blockingClient", "asyncClient", "wsClient", "blockingServer", "asyncServer", "wsServer", "wsProxy"]
 FIELDS = ["singleWriter", "lockRegions", "writesOutsideLock", "wholeWrites", "ignoredResults", "errorEnds", "cancelSafe"]
 
 
@@ -343,7 +367,7 @@ def render(f):
         lines.append(f"def {name} : Obs := {{ " + ", ".join(f"{k} := {v(o[k])}" for k in FIELDS) + " }")
     lines += [
         "",
-        "/-- endpoint number of the `torn` family (0 blocking client … 5 WebSocket server) → observations -/",
+        "/-- endpoint number of the `torn` family (0 blocking client … 5 WebSocket server, 6 WebSocket proxy) → observations -/",
         "def obs : Nat → Option Obs",
     ] + [f"  | {i} => some {n}" for i, n in enumerate(ORDER)] + [
         "  | _ => none",
